@@ -195,7 +195,7 @@ def check_c17(opts):
     t0 = time.time()
     tier = opts.get('tier', 'quick')
     fails = []; evals = 0
-    alpha = ['a', 'é', '€', '\U0001F600', '́']
+    alpha = ['a', 'é', '€', '\U0001F600', '́', '\ufeff']      # U+FEFF is a character of the text like any other (only the codec's own byte-order mark is not)
     strs = [''.join(p) for n in range(0, 4 if tier == 'quick' else 5) for p in itertools.product(alpha, repeat=n)]
     for enc in ('utf-8', 'utf-16', 'utf-32', 'latin-1'):
         for s in strs:
@@ -256,7 +256,7 @@ def check_c17(opts):
         fails += f2; evals += n2
     finally:
         import shutil; shutil.rmtree(d, ignore_errors=True)
-    return result('e2e.C17.codec', f'all strings of length <= {3 if tier == "quick" else 4} over {{a, e-acute, euro, emoji, combining acute}} x 4 splits x utf-8/16/32/latin-1 x all byte chunkings with <= 2 cuts; '
+    return result('e2e.C17.codec', f'all strings of length <= {3 if tier == "quick" else 4} over {{a, e-acute, euro, emoji, combining acute, U+FEFF}} x 4 splits x utf-8/16/32/latin-1 x all byte chunkings with <= 2 cuts; '
                   'json dump_to_file / load_from_file with utf-8/16/32 (one BOM per file) and U+FEFF at the 64 KiB read-chunk boundaries', evals, evals, fails, True, t0)
 
 
@@ -375,10 +375,45 @@ def check_c18(opts):
         evals += 1
         if reads[0] != [tuple(i) for i in items] or reads[1] != reads[0]:
             fails.append({'scenario': 'the same dump_to_file pipeline subscribed twice (re-export), file loaded after each', 'first': str(reads[0])[:200], 'second': str(reads[1])[:200]})
+        # the file export as a tee_map branch, fed by a source that emits while the subscription is still being set up, and cut by first():
+        # every row is in the file, the file is closed when the subscriber is told "completed" (the encoder must not go through the scheduler)
+        import io as _io
+        Row = namedtuple('Row', ['a', 'b'])
+        for enc, exp in (('utf-8', b'a,b\n1,"x"\n2,"\xc3\xa9"\n'), ('utf-16', 'a,b\n1,"x"\n2,"\u00e9"\n'.encode('utf-16')), (None, 'a,b\n1,"x"\n2,"\u00e9"\n')):
+            def sync_rows(observer, scheduler):
+                for r in (Row(1, 'x'), Row(2, '\u00e9')): observer.on_next(r)
+                observer.on_completed()
+            buf = _io.BytesIO() if enc else _io.StringIO()
+            buf.close = lambda: None
+            ev = []
+            _rx.create(sync_rows).pipe(rs.ops.tee_map(csv.dump_to_file(buf, encoding=enc), ops.count(), join='merge')).subscribe(
+                on_next=ev.append, on_error=lambda e: ev.append(repr(e)), on_completed=lambda: ev.append('completed'))
+            evals += 1
+            if buf.getvalue() != exp or ev != [2, 'completed']:
+                fails.append({'scenario': f'rx.create(2 rows, synchronous) > tee_map(csv.dump_to_file(buffer, encoding={enc!r}), count(), join=merge)', 'expected content': repr(exp), 'got': repr(buf.getvalue()), 'events': str(ev)[:120]})
+            fn = os.path.join(d, f'first_{enc}.csv'); closed = []
+            def open_obj(name, mode, encoding=None, closed=closed):
+                f = open(name, mode, encoding=encoding) if encoding else open(name, mode)
+                class F:
+                    def write(self, data): return f.write(data)
+                    def close(self):
+                        closed.append(True); f.close()
+                return F()
+            ev = []
+            _rx.from_([Row(1, 'x'), Row(2, '\u00e9')]).pipe(rs.ops.tee_map(csv.dump_to_file(fn, encoding=enc, open_obj=open_obj), ops.count(), join='merge'), ops.first()).subscribe(
+                on_next=ev.append, on_error=lambda e: ev.append(repr(e)), on_completed=lambda: ev.append('completed'))
+            evals += 1
+            try:
+                got = open(fn, 'rb').read() if enc else open(fn, 'r').read()
+            except Exception as ex:
+                got = repr(ex)
+            if not closed or got != exp or ev != [2, 'completed']:
+                fails.append({'scenario': f'from_(2 rows) > tee_map(csv.dump_to_file(path, encoding={enc!r}), count(), join=merge) > first()', 'expected': 'file closed, content ' + repr(exp),
+                              'got': f'closed: {bool(closed)}, content {got!r}', 'events': str(ev)[:120]})
     finally:
         import shutil; shutil.rmtree(d, ignore_errors=True)
     return result('e2e.C18.csv', 'escape characters ^ and ~ (strings over {sep, quote, escape, a, backslash}); files of 0 / 1 / 4000 (20000) rows of multi-byte text through dump_to_file / load_from_file '
-                  '(> 64 KiB read chunks, encoding None / utf-8 / utf-16 / utf-32 / utf-8-sig: one byte-order mark per file); the same dump pipeline subscribed twice; floats: 13 special + 600 (10000) seeded; ints incl. > 64 bit; strings: length <= 3 (4) over {sep, quote, escape, a, space} in 1-2 columns x 5 separators; text re-chunked in two',
+                  '(> 64 KiB read chunks, encoding None / utf-8 / utf-16 / utf-32 / utf-8-sig: one byte-order mark per file); the same dump pipeline subscribed twice; dump_to_file as a tee_map branch (synchronous source, cut by first()); floats: 13 special + 600 (10000) seeded; ints incl. > 64 bit; strings: length <= 3 (4) over {sep, quote, escape, a, space} in 1-2 columns x 5 separators; text re-chunked in two',
                   evals, evals, fails, False, t0)
 
 
